@@ -182,7 +182,7 @@ func (r *reRun) try(pc, pos int) bool {
 func (m *Machine) reSearch(re *regexp.Regexp, s Str) []int {
 	prog := progOf(re)
 	ncap := 2 * (re.NumSubexp() + 1)
-	for start := 0; start <= len(s.S); start++ {
+	for start := 0; start <= len(s.S); {
 		r := &reRun{m: m, prog: prog, s: s, visited: map[[2]int]bool{}, cap: make([]int, ncap)}
 		for i := range r.cap {
 			r.cap[i] = -1
@@ -190,6 +190,16 @@ func (m *Machine) reSearch(re *regexp.Regexp, s Str) []int {
 		r.cap[0] = start
 		if r.try(prog.Start, start) {
 			return r.cap
+		}
+		if start >= len(s.S) {
+			break
+		}
+		// the search resumes at the next rune, not at the next byte
+		if b := s.at(start); b.T != nil && m.branch(mkBool(tBin("bvult", 0, b.T, bvConst(0x80, 8)))) {
+			start++
+		} else {
+			_, w := m.decodeRune(s, start)
+			start += w
 		}
 	}
 	return nil
